@@ -10,6 +10,7 @@ from pyvc.values import ClassRef, Obj, fresh_int, to_z3, z_and, z_eq, z_not
 from theories import alg as A
 
 RULES = 'furax._base.rules'
+CORE = 'furax._base.core'
 ORACLE = {'name': 'normal_form_family'}
 
 
@@ -57,6 +58,55 @@ def build(ck):
     driver.rules_scenarios(ck, T, 'C07')
     from props import lemmas
     lemmas.selection_lemmas(ck)     # the selection lemmas behind IdentityRule's prefix / suffix clauses, by induction
+
+    # ---- "operands of the scan are already reduced", "regardless of the neighbouring operators": the reduce() of every
+    # composite hands its parts on in REDUCED form (a part left unreduced keeps its patterns alive inside the chain)
+    red_axioms = driver.size_axioms() + A.reduce_axioms()
+
+    def parts_are_reduced(S, parts, a0, n0, what):
+        arr = A.arr_of(S.run, parts)
+        k = z3.Int('part_position')
+        S.assume(z3.And(0 <= k, k < n0))
+        S.oblige('post', z_eq(parts.length, n0), tag=f'{what}:one-part-per-operand')
+        S.oblige('post', arr[k] == A.reduced(a0[k]), tag=f'{what}:every-part-is-the-reduced-operand (generic position)')
+
+    def addition_parts(S):
+        S.oracle = driver.ORACLE['C07']
+        ops = S.seq('operands', kind='list', sort=A.Op)
+        n0, a0 = to_z3(ops.length), ops.arr
+        S.assume(n0 >= 1)       # (no quantified hypothesis here: these statements are refutable by the solver as they stand)
+        o = S.new('AdditionOperator', operands=B.PyList(None, seq=ops))
+        out = S.call(S.I.getattr(o, 'reduce'), [])
+        if not out.normal:
+            return                                  # (exceptions: C01)
+        r = out.value
+        if isinstance(r, Obj) and r.cls.name == 'AdditionOperator':
+            parts_are_reduced(S, B.as_seq(S.I, r.fields['operands']), a0, n0, 'sum')
+        else:
+            # a sum of one term reduces to that term — in reduced form
+            S.oblige('post', n0 == 1, tag='sum:collapses-only-when-it-has-one-term')
+            S.oblige('post', A.to_op(S.I, r) == A.reduced(a0[0]), tag='sum-of-one-term:is-the-REDUCED-term')
+    ck.explore(f'{CORE}.AdditionOperator.reduce', addition_parts, T, label='parts-reduced', axioms=[])
+
+    def composition_parts(S):
+        S.oracle = driver.ORACLE['C07']
+        ops = S.seq('operands', kind='list', sort=A.Op)
+        n0, a0 = to_z3(ops.length), ops.arr
+        S.assume(n0 >= 1)
+        seen = {}
+
+        def scan_contract(interp, fi, args, kwargs):
+            seen['operands'] = B.as_seq(interp, args[-1])
+            return args[-1]
+        S.I.contracts = {f'{RULES}.AlgebraicReductionRule.apply': scan_contract}
+        o = S.new('CompositionOperator', operands=B.PyList(None, seq=ops))
+        out = S.call(S.I.getattr(o, 'reduce'), [])
+        if not out.normal:
+            return
+        S.oblige('post', 'operands' in seen, tag='composition:the-scan-is-run')
+        if 'operands' in seen:
+            parts_are_reduced(S, seen['operands'], a0, n0, 'composition:the-scan-receives')
+    ck.explore(f'{CORE}.CompositionOperator.reduce', composition_parts, T, label='parts-reduced', axioms=[])
 
     # ---- the registry: every concrete rule class is registered (executing the real __init_subclass__)
     try:
